@@ -404,7 +404,7 @@ class NodeLevel(ast.NodeTransformer):
         if self.depth and isinstance(v, ast.Call) and isinstance(v.func, ast.Attribute) and v.func.attr in ('debug', 'info') and isinstance(v.func.value, ast.Name) and v.func.value.id in ('logger', 'logging'):
             return None
         # x.extend([...])  ->  x += [...]
-        if self.depth and isinstance(v, ast.Call) and isinstance(v.func, ast.Attribute) and v.func.attr == 'extend' and len(v.args) == 1 and not v.keywords and isinstance(v.args[0], (ast.List, ast.ListComp)) \
+        if self.depth and isinstance(v, ast.Call) and isinstance(v.func, ast.Attribute) and v.func.attr == 'extend' and len(v.args) == 1 and not v.keywords and not isinstance(v.args[0], (ast.Starred, ast.GeneratorExp)) \
                 and isinstance(v.func.value, (ast.Name, ast.Attribute, ast.Subscript)):
             tgt = copy.deepcopy(v.func.value)
             for n in ast.walk(tgt):
@@ -1484,6 +1484,39 @@ def _functions(tree: ast.AST):
             yield n
 
 
+def _inline_new_constants(tree: ast.Module, path: str, inv) -> None:
+    """a module-level name that the reference tree does not have, assigned once to a literal (a string or a number moved into
+    a named constant), is read as that literal"""
+    consts: dict[str, ast.Constant] = {}
+    stores: dict[str, int] = {}
+    for n in ast.walk(tree):
+        if isinstance(n, ast.Name) and isinstance(n.ctx, (ast.Store, ast.Del)):
+            stores[n.id] = stores.get(n.id, 0) + 1
+        elif isinstance(n, (ast.Global, ast.Nonlocal)):
+            for x in n.names:
+                stores[x] = stores.get(x, 0) + 2
+        elif isinstance(n, ast.arg):
+            stores[n.arg] = stores.get(n.arg, 0) + 1
+    for st in tree.body:
+        if isinstance(st, (ast.Assign, ast.AnnAssign)) and isinstance(getattr(st, 'value', None), ast.Constant) and isinstance(st.value.value, (str, int, float)) and not isinstance(st.value.value, bool):
+            tg = st.targets[0] if isinstance(st, ast.Assign) and len(st.targets) == 1 else getattr(st, 'target', None)
+            if isinstance(tg, ast.Name) and f'{path}::={tg.id}' not in inv and stores.get(tg.id) == 1 and any(x.startswith(path + '::') for x in inv):
+                consts[tg.id] = st.value
+    if not consts:
+        return
+
+    class Sub(ast.NodeTransformer):
+        def visit_Name(self, node):
+            if isinstance(node.ctx, ast.Load) and node.id in consts:
+                return ast.copy_location(ast.Constant(value=consts[node.id].value), node)
+            return node
+
+    for k, st in enumerate(tree.body):
+        if isinstance(st, (ast.FunctionDef, ast.ClassDef)):
+            tree.body[k] = Sub().visit(st)
+    tree = _FoldStrings().visit(tree)
+
+
 def normalise_module(tree: ast.Module, path: str) -> ast.Module:
     tree = NodeLevel(path).visit(tree)
     # helpers that the reference tree does not have are normalised first (several returns become one result), then expanded into
@@ -1491,6 +1524,7 @@ def normalise_module(tree: ast.Module, path: str) -> ast.Module:
     # everything is normalised, innermost functions first
     inv = inventory()
     if inv is not None:
+        _inline_new_constants(tree, path, inv)
         new = [f for f in tree.body if isinstance(f, ast.FunctionDef) and f'{path}::{f.name}' not in inv]
         new += [f for c in tree.body if isinstance(c, ast.ClassDef) for f in c.body if isinstance(f, ast.FunctionDef) and f'{path}::{c.name}.{f.name}' not in inv]
         for h in new:
